@@ -440,8 +440,21 @@ struct ZoneEngine : Engine {
 
 	static bool sparse(const TzModel &m)
 	{
+		/* 26 h is the widest span of offsets any real zone has (-12 h .. +14 h); synthetic files draw offsets
+		 * from +-15 h, so the distance demanded between transitions follows the span of offsets of the file:
+		 * a local time must not be within reach of two transitions at once */
+		int64_t lo = 0, hi = 0;
+		for (auto &e : m.ent) {
+			lo = std::min<int64_t>(lo, e.off);
+			hi = std::max<int64_t>(hi, e.off);
+		}
+		for (auto o : m.type_off) {
+			lo = std::min<int64_t>(lo, o);
+			hi = std::max<int64_t>(hi, o);
+		}
+		int64_t need = std::max<int64_t>(26 * 3600, hi - lo + 3600);
 		for (size_t i = 1; i < m.ent.size(); i++)
-			if (m.ent[i].t - m.ent[i - 1].t < 26 * 3600)
+			if (m.ent[i].t - m.ent[i - 1].t < need)
 				return false;
 		return true;
 	}
@@ -718,8 +731,15 @@ struct ZoneEngine : Engine {
 			if (q.argv.size() == 7)
 				return v;
 		} else {
-			q.argv = {"dzone", "--next", "--prev", "/sim/zi/Z", model::fmt_iso(ts[0])};
 			int64_t t = ts[0];
+			/* every other plan asks inside the first range of the table: the previous transition is entry 0 */
+			if (!m.ent.empty() && (p.hash() & 1)) {
+				int64_t t0 = m.ent[0].t, t1 = m.ent.size() > 1 ? m.ent[1].t : t0 + 2 * 86400 * 366;
+				int64_t cand = (p.hash() & 2) ? t0 : (p.hash() & 4) ? t1 - 1 : t0 + (t1 - t0) / 2;
+				if (cand >= -11644000000LL && cand <= 60000000000LL)
+					t = cand;
+			}
+			q.argv = {"dzone", "--next", "--prev", "/sim/zi/Z", model::fmt_iso(t)};
 			long idx = m.idx_at(t);
 			auto tr = [&](int64_t at, int32_t off) { return model::fmt_iso(at + off) + zstr(off); };
 			std::string nx, pv;
@@ -730,7 +750,9 @@ struct ZoneEngine : Engine {
 			if (m.ent.empty() || idx < 0)
 				pv = "never <- never";
 			else if (idx == 0)
-				return v;	/* what preceded the first listed transition is not specified */
+				/* the adjacent entry is the first one; the offset in force before it is not in the table,
+				 * so only the right-hand side is judged (pv_suffix below) */
+				pv = "\x01 <- " + tr(m.ent[0].t, m.ent[0].off);
 			else
 				pv = tr(m.ent[(size_t)idx].t, m.ent[(size_t)idx - 1].off) + " <- " + tr(m.ent[(size_t)idx].t, m.ent[(size_t)idx].off);
 			expect = nx + "\t/sim/zi/Z\n" + pv + "\t/sim/zi/Z\n";
@@ -752,7 +774,18 @@ struct ZoneEngine : Engine {
 			v.detail = cmd + ": " + r.status_str() + " " + asan_summary(r.err);
 			return v;
 		}
-		if (r.out != expect) {
+		bool same = r.out == expect;
+		size_t wild = expect.find('\x01');
+		if (!same && wild != std::string::npos) {
+			/* "<anything> <- <first entry>": compare what is in front of and behind the placeholder */
+			std::string head = expect.substr(0, wild), tail = expect.substr(wild + 1);
+			same = r.out.size() >= head.size() + tail.size() && r.out.compare(0, head.size(), head) == 0 &&
+			       r.out.compare(r.out.size() - tail.size(), tail.size(), tail) == 0 &&
+			       r.out.substr(head.size(), r.out.size() - head.size() - tail.size()).find('\n') == std::string::npos;
+			if (collect && same)
+				st.named["tool_dzone_prev_in_first_range"]++;
+		}
+		if (!same) {
 			v.ok = false;
 			v.cls = mode == 3 ? "zone/range" : mode == 2 ? "zone/inverse" : "zone/offset";
 			v.predicate = std::string("tool_level") + (mode == 4 ? " from_zone_to_zone" : "");
